@@ -5,6 +5,7 @@ use crate::engine::{Ctx, Outcome};
 pub mod c01;
 pub mod c03;
 pub mod c06;
+pub mod c07;
 pub mod c09;
 pub mod c10;
 pub mod c14;
@@ -29,6 +30,10 @@ pub fn lookup(id: &str) -> Option<Prop> {
         "C06" => Prop {
             check: c06::check,
             replay: c06::replay,
+        },
+        "C07" => Prop {
+            check: c07::check,
+            replay: c07::replay,
         },
         "C09" => Prop {
             check: c09::check,
